@@ -1,5 +1,7 @@
 // runsim/oracle.cpp - reference model of a whole run and the property oracles evaluated over the recorded history.
 #include "runsim.h"
+#include "../core/leakreport.h"
+#include "CppUTest/MemoryLeakDetector.h"
 #include <expat.h>
 #include <algorithm>
 
@@ -245,7 +247,12 @@ static bool decodeTeamCity(const Str& s, Vec<TcMsg>& out, Str& err) {
                 if (c == '|') {
                     if (p + 1 >= s.size()) { err = "dangling escape"; return false; }
                     char e = s[p + 1];
-                    if (e == '\'' || e == '|' || e == '[' || e == ']') val += e; else if (e == 'n') val += '\n'; else if (e == 'r') val += '\r';
+                    if (e == '0' && p + 7 < s.size() && s[p + 2] == 'x' && isxdigit((unsigned char)s[p + 3]) && isxdigit((unsigned char)s[p + 4]) && isxdigit((unsigned char)s[p + 5]) && isxdigit((unsigned char)s[p + 6])) {
+                        unsigned cp = (unsigned)strtoul(s.substr(p + 3, 4).c_str(), 0, 16);      // |0xHHHH: a code point of the basic plane, given back as UTF-8
+                        if (cp < 0x80) val += (char)cp; else if (cp < 0x800) { val += (char)(0xC0 | (cp >> 6)); val += (char)(0x80 | (cp & 0x3F)); } else { val += (char)(0xE0 | (cp >> 12)); val += (char)(0x80 | ((cp >> 6) & 0x3F)); val += (char)(0x80 | (cp & 0x3F)); }
+                        p += 7; continue;
+                    }
+                    if (e == '\'' || e == '|' || e == '[' || e == ']') val += e; else if (e == 'n') val += '\n'; else if (e == 'r') val += '\r'; else if (e == 'x') val += "\xc2\x85"; else if (e == 'l') val += "\xe2\x80\xa8"; else if (e == 'p') val += "\xe2\x80\xa9";
                     else { err = sfmt("invalid escape in %s.%s| escape |%c", m.name.c_str(), key.c_str(), e); return false; }
                     p += 2;
                 } else if (c == '\'') { term = true; p++; break; }
@@ -407,7 +414,7 @@ void checkOracles(const Desc& d, const Obs& o, RunResult& r) {
             if (c.separate && shouldExecute) {
                 // ---- C11: what the parent must record for this test, from the child's modelled fate and the wait script
                 Vec<Str> want; Vec<Str> eitherTail; bool windowGiveUp = false, terminalSeen = false;
-                bool forkFail = false; int64_t eintr = 0; 
+                bool forkFail = false; int64_t eintr = 0, eintrRun = 0; 
                 for (size_t i = 0; i < T.ops.size(); i++) if (T.ops[i].phase == PH_PROC && T.ops[i].kind == K_FORK_FAIL) forkFail = true;
                 if (forkFail) want.push_back("Call to fork() failed");
                 else {
@@ -425,8 +432,9 @@ void checkOracles(const Desc& d, const Obs& o, RunResult& r) {
                     }
                     for (size_t i = 0; i < evs.size() && !terminalSeen; i++) {
                         const Op& o = evs[i];
-                        if (o.kind == K_W_EINTR) { eintr += o.a;
-                            if (eintr >= 40) { want.push_back("Call to waitpid() failed with EINTR"); terminalSeen = true; probe("eintr_past_retry_bound"); }
+                        if (o.kind != K_W_EINTR) eintrRun = 0;      // (the retry budget may be per test or per wait: only one uninterrupted run past the bound must end in giving up)
+                        if (o.kind == K_W_EINTR) { eintr += o.a; eintrRun += o.a;
+                            if (eintrRun >= 40) { want.push_back("Call to waitpid() failed with EINTR"); terminalSeen = true; probe("eintr_past_retry_bound"); }
                             else if (eintr > 30) { windowGiveUp = true; probe("eintr_inside_bound_window"); for (size_t k = i + 1; k < evs.size(); k++) { (void)k; } }
                             else probe("eintr_survived");
                             if (windowGiveUp && !terminalSeen) { /* either the wait gives up here (one failure, nothing after) or it goes on */ }
@@ -511,24 +519,12 @@ void checkOracles(const Desc& d, const Obs& o, RunResult& r) {
                     // the report must list exactly the blocks this test still holds
                     Vec<Str> want, got;
                     for (size_t l = 0; l < x.leaks.size(); l++) want.push_back(sfmt("%zu|%s|%zu|%s", x.leaks[l].size, x.leaks[l].file.c_str(), x.leaks[l].line, x.leaks[l].type.c_str()));
-                    size_t pos = 0;
-                    while ((pos = fr.msg.find("Leak size: ", pos)) != Str::npos) {
-                        unsigned long sz = 0; char filebuf[1024]; int ln = 0; char typ[64];
-                        const char* p = fr.msg.c_str() + pos;
-                        const char* at = strstr(p, " Allocated at: "); const char* andl = at ? strstr(at, " and line: ") : 0; const char* ty = andl ? strstr(andl, ". Type: \"") : 0;
-                        if (at && andl && ty && sscanf(p, "Leak size: %lu", &sz) == 1) {
-                            size_t fl = (size_t)(andl - (at + 15)); if (fl >= sizeof filebuf) fl = sizeof filebuf - 1;
-                            memcpy(filebuf, at + 15, fl); filebuf[fl] = 0; ln = atoi(andl + 11);
-                            const char* te = strchr(ty + 9, '"'); size_t tl = te ? (size_t)(te - (ty + 9)) : 0; if (tl >= sizeof typ) tl = sizeof typ - 1; memcpy(typ, ty + 9, tl); typ[tl] = 0;
-                            got.push_back(sfmt("%lu|%s|%d|%s", sz, filebuf, ln, typ));
-                        }
-                        pos += 10;
-                    }
+                    Vec<LeakEntry> ents; long total = -1; parseLeakReport(fr.msg, ents, total);      // by field labels, whatever the layout around them
+                    for (size_t q = 0; q < ents.size(); q++) if (ents[q].complete) got.push_back(sfmt("%lu|%s|%ld|%s", ents[q].size, ents[q].file.c_str(), ents[q].line, ents[q].type.c_str()));
                     std::sort(want.begin(), want.end()); std::sort(got.begin(), got.end());
-                    bool truncated = fr.msg.find("Too many memory leaks") != Str::npos;
+                    bool truncated = got.size() < x.leaks.size() && fr.msg.size() + 400 >= (size_t)SimpleStringBuffer::SIMPLE_STRING_BUFFER_LEN;      // fewer entries than blocks and the text fills the detector's buffer: the report ran out of room (what it says about that is judged in heapsim)
                     probe(truncated ? "leak_report_truncated" : "leak_report_complete");
                     if (!truncated && want != got) { Str w, g2; for (size_t q = 0; q < want.size(); q++) w += want[q] + ";"; for (size_t q = 0; q < got.size(); q++) g2 += got[q] + ";"; r.fail("C07", "leak_report", sigOf("what", "blocks listed"), sfmt("test %d: report lists {%s}, model holds {%s}", st.test, g2.c_str(), w.c_str())); }
-                    long total = -1; size_t tp = fr.msg.find("Total number of leaks: "); if (tp != Str::npos) total = atol(fr.msg.c_str() + tp + 23);
                     if (!x.leaks.empty() && total != (long)x.leaks.size()) r.fail("C07", "leak_report", sigOf("what", "total"), sfmt("test %d: report total %ld, model %zu", st.test, total, x.leaks.size()));
                 }
             }
